@@ -9,3 +9,4 @@ pub mod sgen;
 #[global_allocator]
 static GLOBAL: rec::Rec = rec::Rec;
 pub mod sizes;
+pub mod collx;
